@@ -2,7 +2,8 @@
 (* Generator of remote-operation histories for C13 (ii): all sequences over the menu up to MaxOps.       *)
 (* The expected results are those of IpcAbs (the single shared server environment).                      *)
 EXTENDS Integers, Sequences, TLC, Json
-CONSTANTS Keys, Vals, MaxOps
+CONSTANTS Keys, Vals, MaxOps,
+          DsetVals, AssignVals, CallVals, PairA, PairB     \* the menus (subsets of the value ids) of each operation
 \* a character cannot be passed as a bare element of a Klong join (,0cx is the string "x"): such values only travel by text
 ArgVals == Vals \ {5}
 \* function values: 8 = a monad, 9 = a dyad (assigned by text; read back through the dictionary as a proxy of that arity)
@@ -15,12 +16,12 @@ V(v) == [t |-> "v", v |-> v]
 Add(e) == hist' = Append(hist, e)
 Next ==
   /\ Len(hist) < MaxOps
-  /\ \/ \E k \in Keys, v \in ArgVals \cup {A!Undef} : env' = [env EXCEPT ![k] = v] /\ Add([op |-> "dset", k |-> k, v |-> v, obs |-> V(0)])
-     \/ \E k \in Keys, v \in Vals \cup FnVals : env' = [env EXCEPT ![k] = v] /\ Add([op |-> "assign", k |-> k, v |-> v, obs |-> V(v)])
+  /\ \/ \E k \in Keys, v \in DsetVals : env' = [env EXCEPT ![k] = v] /\ Add([op |-> "dset", k |-> k, v |-> v, obs |-> V(0)])
+     \/ \E k \in Keys, v \in AssignVals : env' = [env EXCEPT ![k] = v] /\ Add([op |-> "assign", k |-> k, v |-> v, obs |-> V(v)])
      \/ \E k \in Keys : env[k] # A!NotSet /\ UNCHANGED env /\ Add([op |-> "dget", k |-> k, obs |-> V(env[k])])
      \/ \E k \in Keys : env[k] \notin ({A!Undef, A!NotSet} \cup FnVals) /\ UNCHANGED env /\ Add([op |-> "eval", k |-> k, obs |-> V(env[k])])
      \/ \E k \in Keys : env[k] # A!NotSet /\ UNCHANGED env /\ Add([op |-> "isundef", k |-> k, obs |-> V(IF env[k] = A!Undef THEN 1 ELSE 0)])
-     \/ \E v \in ArgVals \cup {A!Undef}, o \in {"call1", "proxy1"} : UNCHANGED env /\ Add([op |-> o, v |-> v, obs |-> V(v)])
-     \/ \E a \in ArgVals \ {2}, b \in {1, 3, 6}, o \in {"call2", "proxy2"} : UNCHANGED env /\ Add([op |-> o, a |-> a, b |-> b, obs |-> [t |-> "pair", a |-> a, b |-> b]])
+     \/ \E v \in CallVals, o \in {"call1", "proxy1"} : UNCHANGED env /\ Add([op |-> o, v |-> v, obs |-> V(v)])
+     \/ \E a \in PairA, b \in PairB, o \in {"call2", "proxy2"} : UNCHANGED env /\ Add([op |-> o, a |-> a, b |-> b, obs |-> [t |-> "pair", a |-> a, b |-> b]])
 Emit == Len(hist) = MaxOps => PrintT(ToJson(hist))
 =============================================================================
